@@ -41,8 +41,15 @@ def main():
         mod.run(ctx)
         rc = core.finish(ctx)
     except core.Inconclusive as e:
-        print("INCONCLUSIVE property=%s: %s" % (pid, e), flush=True)
-        rc = 2
+        # violations recorded before a later stage (self-test, model run) gave up were observed on the real code: they stand
+        _, new = core.classify(ctx.id, ctx.violations)
+        if new:
+            print("NOTE property=%s: a later stage was inconclusive (%s); reporting the violations already reproduced" % (pid, str(e)[:300]), flush=True)
+            ctx.coverage.setdefault("incomplete", str(e)[:300])
+            rc = core.finish(ctx)
+        else:
+            print("INCONCLUSIVE property=%s: %s" % (pid, e), flush=True)
+            rc = 2
     except Exception:
         traceback.print_exc()
         print("INCONCLUSIVE property=%s: internal error in the checking machinery" % pid, flush=True)
